@@ -134,6 +134,9 @@ class MemoLog:
     def __init__(self):
         self.enabled = False
         self.shared_nonroot = set()
+        # emulation used by classifiers: treat the cache as if it were keyed by the whitespace context as well
+        # (a hit on an entry stored under another context is turned into a miss)
+        self.context_keyed = False
         self.clear()
 
     def clear(self):
@@ -169,7 +172,11 @@ def install_memo_log():
                 mlog.hits_other_ctx += 1
                 if id(self) in mlog.shared_nonroot:
                     mlog.hits_other_ctx_shared_nonroot += 1
-            return orig(self, parser)
+                if mlog.context_keyed:
+                    del cache[pos]
+                    mlog.store_ctx.pop(key, None)
+            if pos in cache:
+                return orig(self, parser)
         try:
             return orig(self, parser)
         finally:
